@@ -37,6 +37,7 @@ def _strategy():
         "disp": st.lists(st.sampled_from([0.0, 1e-6, 1e-5, 1e-4]), min_size=1, max_size=2),
         "lat": st.lists(st.sampled_from(simbus.LATENCY_GRID[1:]), min_size=1, max_size=3),
         "pre_timer": st.sampled_from([None, None, 0.003, 0.05, 1.0]),
+        "tx_time": st.sampled_from([0.0, 0.0, 0.0, 0.0005, 0.002]),      # time a frame write of the job thread takes
         "sas": st.sampled_from([[0x30, 0x40, 0x41], [0x30, 0x40, 0x41], [0x00, 0x40, 0x41], [0x30, 0x00, 0xFD], [0xFD, 0x01, 0x00], [0x80, 0xF8, 0x7F]]),
     })
 
@@ -78,12 +79,14 @@ class C11:
             viol.append({"kind": kind, "msg": msg, "bucket": "C11|%s|%s" % (kind, site)})
 
         SA_S, DA1, DA2 = p.get("sas", [0x30, 0x40, 0x41])
-        L = max(p["eps"]) + max(p["disp"]) + 2e-6
+        txt = p.get("tx_time", 0.0)
+        # (a due frame may wait for the frames the job thread is still writing in the same pass)
+        L = max(p["eps"]) + max(p["disp"]) + 2e-6 + txt * (len(p["calls"]) + 1)
         w = W.World(latency={"R1": p["lat"], "R2": p["lat"][::-1]}, wake_eps=p["eps"], dispatch=p["disp"])
         subs = []     # (t, fmt, da, cpgn, payload, limit, result)
         try:
             j = W.load()
-            s = w.stack("S", dll="j1939-22")
+            s = w.stack("S", dll="j1939-22", tx_time=txt)
             r1 = w.stack("R1", dll="j1939-22")
             r2 = w.stack("R2", dll="j1939-22")
             s.add_ca("s", 0x100, SA_S)
@@ -101,12 +104,13 @@ class C11:
                     ps = c["ps"] if c["kind"] == "bc2" else da
                     data = [(c["a"] + 3 * i + ci) & 0xFF for i in range(c["n"])]
                     cpgn = (c["dp"] << 16) | (c["pf"] << 8) | (c["ps"] if c["kind"] == "bc2" else 0)
+                    t_sub = w.sim.now        # (the call itself may take time when it writes a frame)
                     try:
                         r = s.cas["s"].send_pgn(c["dp"], c["pf"], ps, c["prio"], list(data), time_limit=c["limit_ms"] / 1000.0,
                                                 frame_format=FBFF if c["fmt"] == "FBFF" else FEFF)
                     except Exception as e:  # noqa
                         r = "EXC:%s:%s" % (type(e).__name__, str(e)[:100])
-                    subs.append({"t": w.sim.now, "fmt": c["fmt"], "da": da, "cpgn": cpgn, "data": bytes(data),
+                    subs.append({"t": t_sub, "fmt": c["fmt"], "da": da, "cpgn": cpgn, "data": bytes(data),
                                  "limit": c["limit_ms"] / 1000.0, "r": r, "ctx": c["ctx"], "ci": ci})
                 t = 0.05 + c["t_ms"] / 1000.0
                 if c["ctx"] == "timer":
